@@ -1065,3 +1065,54 @@ func resolveRet(v ssa.Value, b *ssa.BasicBlock) ssa.Value {
 	}
 	return v
 }
+
+// loopHeadersOf returns the headers of the natural loops of fn (targets of
+// back edges: a successor that dominates its predecessor).
+func loopHeadersOf(fn *ssa.Function) []*ssa.BasicBlock {
+	seen := map[*ssa.BasicBlock]bool{}
+	var out []*ssa.BasicBlock
+	for _, b := range fn.Blocks {
+		for _, s := range b.Succs {
+			if s.Dominates(b) && !seen[s] {
+				seen[s] = true
+				out = append(out, s)
+			}
+		}
+	}
+	sort.Slice(out, func(i, j int) bool { return out[i].Index < out[j].Index })
+	return out
+}
+
+// loopBreaks lists edges from inside the loop of header h (not from h itself)
+// to the block the header exits to: `break` statements. Returns from inside
+// the loop are not listed.
+func loopBreaks(h *ssa.BasicBlock) []string {
+	body := map[*ssa.BasicBlock]bool{h: true}
+	for _, b := range h.Parent().Blocks {
+		if b != h && h.Dominates(b) && reachableFrom(b, nil)[h] {
+			body[b] = true
+		}
+	}
+	var exit *ssa.BasicBlock
+	for _, s := range h.Succs {
+		if !body[s] {
+			exit = s
+		}
+	}
+	var out []string
+	if exit == nil {
+		return out
+	}
+	for b := range body {
+		if b == h {
+			continue
+		}
+		for _, s := range b.Succs {
+			if s == exit {
+				out = append(out, fmt.Sprintf("block %d (%s) -> block %d (%s)", b.Index, b.Comment, s.Index, s.Comment))
+			}
+		}
+	}
+	sort.Strings(out)
+	return out
+}
